@@ -51,4 +51,11 @@ descends from `HighFrequencyAgent`, and adds it to its group — for every id va
 alias source_registry_add_agent := registry_src_add_agent
 alias source_registry_duplicate_name := registry_src_duplicate_name
 
+/-- the same for markets and sessions: `Simulator._add_market` / `_add_session` refuse an id or a name already in
+use and an object already registered; otherwise they append, count and index by id and name (markets also join
+their group, created if new) — for every id value -/
+alias source_registry_add_market := registry_src_add_market
+alias source_registry_market_refusals := registry_src_market_refusals
+alias source_registry_add_session := registry_src_add_session
+
 end Pams.C18
